@@ -39,7 +39,37 @@ type Emb struct {
 	K map[string]*S2
 }
 
+type EmbP struct {
+	*S2
+	Q map[string][]int
+}
+type Unk struct {
+	M map[string]*S2
+	U map[string]any `json:",unknown"`
+}
+type PL struct {
+	L  *[]int
+	PM *map[string]int
+	PP **map[string]*int
+}
+type Tagged struct {
+	A int            `json:"a,omitzero"`
+	B []string       `json:"b,omitempty"`
+	C map[string]int `json:"c,omitempty"`
+	D *Tagged        `json:"d,omitzero"`
+	E float64        `json:"e,string"`
+	F bool           `json:"F,case:ignore"`
+}
+
 func rootTypes() []reflect.Type {
+	return append(rootTypes0(), reflect.TypeOf(EmbP{}), reflect.TypeOf(Unk{}), reflect.TypeOf(PL{}), reflect.TypeOf(Tagged{}),
+		reflect.TypeOf(map[string]*map[string]int{}), reflect.TypeOf([2][]int{}), reflect.TypeOf([][2]int{}), reflect.TypeOf(map[string]struct {
+			A *int
+			B []string
+		}{}), reflect.TypeOf([]map[string]*S2{}), reflect.TypeOf(map[string]map[string]map[string]any{}), reflect.TypeOf(&[]*[]any{}))
+}
+
+func rootTypes0() []reflect.Type {
 	return []reflect.Type{
 		reflect.TypeOf(S{}), reflect.TypeOf(&S{}), reflect.TypeOf(map[string]S2{}), reflect.TypeOf(map[string]*S2{}), reflect.TypeOf([]S2{}), reflect.TypeOf([]any{}),
 		reflect.TypeOf(map[string]any{}), reflect.TypeOf((*any)(nil)).Elem(), reflect.TypeOf([2]S2{}), reflect.TypeOf(map[string][]int{}), reflect.TypeOf(map[string]map[string]int{}),
@@ -57,6 +87,8 @@ func texts(t reflect.Type, depth int) []string {
 		return []string{`"a"`, `"b"`, "null"}
 	case reflect.Bool:
 		return []string{"true", "null"}
+	case reflect.Float64:
+		return []string{`"1.5"`, `"2"`, "null"} // only used for the string-tagged member
 	case reflect.Pointer:
 		return texts(t.Elem(), depth)
 	case reflect.Interface:
@@ -128,10 +160,24 @@ func texts(t reflect.Type, depth int) []string {
 			for i := 0; i < t.NumField(); i++ {
 				f := t.Field(i)
 				if f.Anonymous {
-					collect(f.Type)
+					ft := f.Type
+					if ft.Kind() == reflect.Pointer {
+						ft = ft.Elem()
+					}
+					collect(ft)
 					continue
 				}
-				fs = append(fs, fld{f.Name, texts(f.Type, depth-1)})
+				name := f.Name
+				if tag, ok := f.Tag.Lookup("json"); ok {
+					if n, _, _ := strings.Cut(tag, ","); n != "" {
+						name = n
+					}
+					if strings.Contains(tag, "unknown") {
+						fs = append(fs, fld{"u1", []string{"1", `{"x":1}`, `{"y":2}`, "null"}}, fld{"u2", []string{"[1]", `{"x":{"p":1}}`, `{"x":{"q":2}}`}})
+						continue
+					}
+				}
+				fs = append(fs, fld{name, texts(f.Type, depth-1)})
 			}
 		}
 		collect(t)
@@ -248,7 +294,7 @@ func Replay(r *evid.Run, raw json.RawMessage) {
 }
 
 func Run(r *evid.Run) {
-	r.Rule("20 merge-capable root types (structs with scalar / pointer / map / slice / array / any / embedded members, maps of structs / pointers / slices / maps / any, slices of structs / pointers / any / maps, arrays, pointer-to-pointer fields) x texts generated to fit each type (absent, null, every value variant, unknown members, arrays of different lengths, overlapping and disjoint keys, nested objects below any) x ALL ordered pairs (j1, j2) and chains of length 3 (thorough: 4 over a reduced text set): unmarshaling the chain sequentially into one value DeepEquals unmarshaling merge(j1..jk) into a zero value, where merge is computed on reference value trees (objects union recursively, everything else takes the later side); chains where a step fails are outside the law. evaluations = chains executed; distinct_nontrivial = distinct chains in which every step succeeded and at least one object member was merged or replaced")
+	r.Rule("31 merge-capable root types (structs with scalar / pointer / map / slice / array / any / embedded members, maps of structs / pointers / slices / maps / any, slices of structs / pointers / any / maps, arrays, pointer-to-pointer fields, embedded pointers, unknown-member fallback maps, pointers to slices and maps, omit/string/case tags) x texts generated to fit each type (absent, null, every value variant, unknown members, arrays of different lengths, overlapping and disjoint keys, nested objects below any) x ALL ordered pairs (j1, j2) and chains of length 3 over a stride (thorough: ALL chains of 3, and chains of 4 over a third of the middle texts): unmarshaling the chain sequentially into one value DeepEquals unmarshaling merge(j1..jk) into a zero value, where merge is computed on reference value trees (objects union recursively, everything else takes the later side); chains where a step fails are outside the law. evaluations = chains executed; distinct_nontrivial = distinct chains in which every step succeeded and at least one object member was merged or replaced")
 	r.Assume("reference value tree + the merge definition of the property statement")
 	ts := rootTypes()
 	depth := 2
@@ -300,15 +346,23 @@ func Run(r *evid.Run) {
 				run(t, []string{j1, j2})
 			}
 			// chains of 3: third element over a stride of the set (quick) or the full set (thorough)
-			stride := 5
 			if r.Tier == "thorough" {
-				stride = 1
-			}
-			for a := 0; a < len(set); a += stride {
-				for b := (un.j1 + a) % 3; b < len(set); b += stride + 2 {
-					run(t, []string{j1, set[a], set[b]})
-					if r.Tier == "thorough" && a%4 == 0 && b%4 == 0 {
-						run(t, []string{j1, set[a], set[b], set[(a+b)%len(set)]})
+				// every chain of 3, and chains of 4 whose two middle texts run over every third text
+				for a := 0; a < len(set); a++ {
+					for b := 0; b < len(set); b++ {
+						run(t, []string{j1, set[a], set[b]})
+						if a%3 == un.j1%3 && b%3 == (un.j1+a)%3 {
+							for c := (a + b) % 2; c < len(set); c += 2 {
+								run(t, []string{j1, set[a], set[b], set[c]})
+							}
+						}
+					}
+				}
+			} else {
+				stride := 4
+				for a := un.j1 % 2; a < len(set); a += stride {
+					for b := (un.j1 + a) % 3; b < len(set); b += 3 {
+						run(t, []string{j1, set[a], set[b]})
 					}
 				}
 			}
@@ -322,5 +376,5 @@ func Run(r *evid.Run) {
 	}
 	r.Sample(Case{Type: "[]interface {}", Chain: []string{`[{"a":1},{"b":2},{"c":3}]`, `[{"x":1},{"y":2}]`}})
 	r.Sample(Case{Type: "interface {}", Chain: []string{`{"a":{"x":1}}`, `{"a":{"y":2}}`}})
-	r.Bound("%d root types, %d generated texts in total, all ordered pairs per type plus chains of 3 (and 4 in the thorough tier)", len(ts), total)
+	r.Bound("%d root types, %d generated texts in total, all ordered pairs per type plus chains of 3 (thorough: all of them, and chains of 4)", len(ts), total)
 }
